@@ -7,6 +7,7 @@ import (
 	"strconv"
 
 	"github.com/graphql-go/graphql/language/ast"
+	"github.com/graphql-go/graphql/language/printer"
 )
 
 // normalizeDocument walks the given operation in `doc`, replacing
@@ -360,6 +361,7 @@ type normCtx struct {
 	counter    int
 	synthArgs  map[string]interface{}
 	newVarDefs []*ast.VariableDefinition
+	byLiteral  map[string]string // type + printed literal -> synth variable
 }
 
 func (c *normCtx) nextName() string {
@@ -471,7 +473,18 @@ func (c *normCtx) tryExtract(value ast.Value, expected Input) (ast.Value, bool) 
 	if ok, _ := isValidInputValue(coerced, expected); !ok || !reflect.DeepEqual(coerceValue(expected, coerced), coerced) {
 		return value, false
 	}
+	// The same literal at the same type reuses one synthetic variable, so
+	// that repeated selections of a field stay mergeable
+	// ({ f(x: 1) f(x: 1) } must not become f(x: $a) f(x: $b)).
+	litKey := fmt.Sprintf("%v|%v", expected, printer.Print(value))
+	if name, ok := c.byLiteral[litKey]; ok {
+		return ast.NewVariable(&ast.Variable{Name: ast.NewName(&ast.Name{Value: name})}), true
+	}
 	name := c.nextName()
+	if c.byLiteral == nil {
+		c.byLiteral = map[string]string{}
+	}
+	c.byLiteral[litKey] = name
 	c.synthArgs[name] = coerced
 	c.newVarDefs = append(c.newVarDefs, ast.NewVariableDefinition(&ast.VariableDefinition{
 		Variable: ast.NewVariable(&ast.Variable{Name: ast.NewName(&ast.Name{Value: name})}),
